@@ -134,12 +134,14 @@ func checkSeq(c SeqCase) *vk.Violation {
 	var v *vk.Violation
 	pn := guard("seq", c, func() {
 		p := g.Pack(append([]byte{}, s...))
+		vk.Retain("gsm7encoding.Pack", p)
 		want := ref.GSMPack(s)
 		if !bytes.Equal(p, want) {
 			v = vk.Violf("Pack/bit-layout", c, "Pack(%x) = %x, TS 23.038 bit stream gives %x", s, p, want)
 			return
 		}
 		u := g.Unpack(append([]byte{}, p...))
+		vk.Retain("gsm7encoding.Unpack", u)
 		if !acceptableUnpack(s, u) {
 			key := "Unpack/inverse"
 			for i := 7; i < len(s)-1; i += 8 {
@@ -153,6 +155,8 @@ func checkSeq(c SeqCase) *vk.Violation {
 		// packed transformer decoder == Decode(Unpack(.)) on the same packed octets
 		d1, e1 := g.Decode(g.Unpack(append([]byte{}, p...)))
 		d2, _, e2 := transform.Bytes(g.GSM7(true).NewDecoder(), append([]byte{}, p...))
+		vk.Retain("gsm7encoding.Decode", d1)
+		vk.Retain("GSM7(true).NewDecoder", d2)
 		if (e1 == nil) != (e2 == nil) || (e1 == nil && !bytes.Equal(d1, d2)) {
 			v = vk.Violf("PackedDecoder/agreement", c, "packed transformer decoder(%x) = %q, %v but Decode(Unpack(.)) = %q, %v", p, d2, e2, d1, e1)
 		}
@@ -170,6 +174,7 @@ func checkText(c TextCase) *vk.Violation {
 	pn := guard("text", c, func() {
 		want, werr := ref.GSMEncode(txt)
 		enc, err := g.Encode(txt)
+		vk.Retain("gsm7encoding.Encode", enc)
 		if (werr == nil) != (err == nil) || (werr == nil && !bytes.Equal(enc, want)) {
 			v = vk.Violf("Encode/text", c, "Encode(%q) = %x, %v; reference %x, %v", txt, enc, err, want, werr)
 			return
@@ -190,6 +195,7 @@ func checkText(c TextCase) *vk.Violation {
 		}
 		if werr == nil {
 			d, e := g.Decode(want)
+			vk.Retain("gsm7encoding.Decode", d)
 			if e != nil || string(d) != txt {
 				v = vk.Violf("Decode/text", c, "Decode(Encode(%q)) = %q, %v", txt, d, e)
 				return
@@ -285,6 +291,8 @@ func evalSeq(t vk.TB, s []byte, constructed bool) {
 
 func TestPackingEnumerations(t *testing.T) {
 	env := rec.Env()
+	vk.RetainEnabled = false
+	defer func() { vk.RetainEnabled = true }()
 	idx := 0
 	mine := func() bool { idx++; return env.Mine(idx) }
 	// all sequences of length 0..2 (quick) / 0..3 (thorough) over all 128 septet values
@@ -403,7 +411,20 @@ var alphabetRunes = func() []rune {
 func TestTextsRandom(t *testing.T) {
 	rapid.Check(t, func(t *rapid.T) {
 		n := rapid.IntRange(0, 200).Draw(t, "n")
-		rs := rapid.SliceOfN(rapid.OneOf(rapid.SampledFrom(alphabetRunes), rapid.SampledFrom([]rune{'[', ']', '{', '}', '€', '@', '\r', 0x1b, 'ç', 'Ā', 0x10000})), n, n).Draw(t, "runes")
+		rs := rapid.SliceOfN(rapid.OneOf(rapid.SampledFrom(alphabetRunes), rapid.SampledFrom([]rune{'[', ']', '{', '}', '€', '@', '\r', 0x1b, 'ç', 'Ā', 0x10000, 0x0301, 0x0308, 0x2126, 0x212A, 0x037E})), n, n).Draw(t, "runes")
+		if rapid.IntRange(0, 5).Draw(t, "decomposed") == 0 {
+			// decomposed accents right after their base letter: the sequence is NOT in the alphabet although its composition is
+			pairs := []string{"e\u0301", "a\u0300", "u\u0308", "n\u0303", "A\u030a", "C\u0327", "E\u0301", "o\u0308"}
+			at := rapid.IntRange(0, len(rs)).Draw(t, "at")
+			rs = append(rs[:at:at], append([]rune(pairs[rapid.IntRange(0, len(pairs)-1).Draw(t, "pair")]), rs[at:]...)...)
+			n = len(rs)
+			rec.Class("texts_with_decomposed_accent")
+			txt := string(rs)
+			rec.Eval()
+			tc := TextCase{vk.Hex([]byte(txt))}
+			rec.ReportSeq(t, "text", tc, func() *vk.Violation { return checkText(tc) })
+			return
+		}
 		if rapid.IntRange(0, 3).Draw(t, "invalid") != 0 { // mostly keep texts inside the alphabet
 			for i, r := range rs {
 				if _, ok := ref.GSMRune(r); !ok {
